@@ -32,7 +32,7 @@ LEVEL_TEXT = (
     "Every concrete class of DPTBase.dpt_class_tree() x all 64 DPTBinary values x DPTArray of length 0, 1 (all 256), 2 (all 65,536 for "
     "2-octet types in the quick tier, for every type in the thorough tier; a 257-stride sample elsewhere), wrong lengths 3..16/17/32/54/55/253/254 "
     "(zero, 0xFF, random fill) and, for types of 3+ octets, every octet value in every position over all-zero, all-0xFF and accepted backgrounds "
-    "plus 3,000 (20,000) random arrays. Exhaustive for payloads of <= 2 octets in the thorough tier; longer payloads are sampled, hence exploration."
+    "plus 3,000 (100,000) random arrays. Exhaustive for payloads of <= 2 octets in the thorough tier; longer payloads are sampled, hence exploration."
 )
 LEVEL_NOTE = (
     "Trusted: CPython, struct. Judged: the exception class leaving from_knx (only CouldNotParseTelegram / ConversionError allowed) and, in the "
@@ -74,7 +74,7 @@ def _decode_monitor(ctx, cls, payload, fingerprints):
 
 def _queue_payloads(ctx, cls, rng):
     """The payloads one class receives through the telegram queue."""
-    per_kind = ctx.scale(24, 400)
+    per_kind = ctx.scale(24, 1200)
     out = [DPTBinary(v) for v in range(64)]
     out.append(DPTArray(()))
     out += [DPTArray((rng.randrange(256),)) for _ in range(per_kind)]
@@ -100,8 +100,11 @@ class _LogMonitor(logging.Handler):
         self.records.append(record.getMessage()[:300])
 
 
-def _queue_monitor(ctx, classes):
-    """Monitor 2: real XKNX + TelegramQueue on the virtual loop."""
+def _queue_monitor(ctx, classes, fixed=None):
+    """Monitor 2: real XKNX + TelegramQueue on the virtual loop.
+
+    `fixed` (replay): the payload list to send to every class instead of _queue_payloads().
+    """
     rng = ctx.rng
     # configuration through the public API; verified with get()
     table = []
@@ -109,8 +112,14 @@ def _queue_monitor(ctx, classes):
         table.append((GroupAddress(i + 1), cls))
     telegrams = []
     for ga, cls in table:
-        for k, payload in enumerate(_queue_payloads(ctx, cls, rng)):
-            apci = GroupValueResponse(payload) if k % 5 == 4 else GroupValueWrite(payload)
+        for k, payload in enumerate(fixed if fixed is not None else _queue_payloads(ctx, cls, rng)):
+            try:
+                apci = GroupValueResponse(payload) if k % 5 == 4 else GroupValueWrite(payload)
+            except G.DECLARED_ERRORS:
+                # the APCI constructor refuses payloads that cannot be on the wire (e.g. an empty array);
+                # such a payload cannot reach the queue - monitor 1 still decodes it directly
+                ctx.count("queue_payload_refused_by_apci_constructor")
+                continue
             telegrams.append((cls, Telegram(destination_address=ga, direction=TelegramDirection.INCOMING, payload=apci, source_address=_SRC)))
     order = list(range(len(telegrams)))
     rng.shuffle(order)
@@ -249,7 +258,6 @@ def run(ctx):
         ctx.count("classes_run")
         if i % 40 == 0:
             ctx.sample({"cls": cls.__name__, "outcomes": counts})
-    ctx.exhaustive = False if ctx.quick else None
     ctx.extra["exhaustive_part"] = (
         "all DPTBinary + all DPTArray of length 0..2 for every class" if not ctx.quick
         else "all DPTBinary + all DPTArray of length 0..1 for every class; length 2 complete for 2-octet types"
@@ -269,9 +277,4 @@ def replay(ctx, witness):
     ctx.distinct(("replay", repr(payload)))
     ctx.count("decoded_value")
 
-    saved = globals()["_queue_payloads"]
-    globals()["_queue_payloads"] = lambda _ctx, _cls, _rng: [payload]
-    try:
-        _queue_monitor(ctx, [cls])
-    finally:
-        globals()["_queue_payloads"] = saved
+    _queue_monitor(ctx, [cls], fixed=[payload])
